@@ -27,6 +27,19 @@ def freshRState : RState := ⟨⟨[], 0, 0, 0⟩, [], [], [], 0⟩
 
 def anyFile (d : Disk) : Bool := !(d.manifests.isEmpty && d.journals.isEmpty && d.tables.isEmpty)
 
+/-- the test of `session.recover` when there is no entry point: "corrupted" if this holds, "no DB" otherwise
+    (with the repair of D12 manifests alone do not count when `GetMeta` itself said "not exist") -/
+def refusesNoEntry (dcfg : Cfg) (d : Disk) : Bool :=
+  if d.current = none ∧ dcfg.manifestsAloneAreNoDB = true then !(d.journals.isEmpty && d.tables.isEmpty) else anyFile d
+
+theorem refusesNoEntry_false {dcfg : Cfg} {d : Disk} (h : ¬ refusesNoEntry dcfg d = true) :
+    d.tables = [] ∧ d.journals = [] := by
+  unfold refusesNoEntry anyFile at h
+  split at h <;>
+    simp only [Bool.not_eq_true', Bool.not_eq_false, Bool.and_eq_true, List.isEmpty_iff] at h
+  · exact ⟨h.2, h.1⟩
+  · exact ⟨h.2, h.1.2⟩
+
 theorem recoverR_unreadable (dcfg : Cfg) {d : Disk} {c : Nat} {mf : LogFile MRec} (hc : d.current = some c)
     (hm : lookup d.manifests c = some mf) (hv : (replayM dcfg mf.all).view? = none) :
     recoverR dcfg d = .error .corrupted := by
@@ -34,11 +47,11 @@ theorem recoverR_unreadable (dcfg : Cfg) {d : Disk} {c : Nat} {mf : LogFile MRec
 
 theorem recoverR_no_manifest (dcfg : Cfg) {d : Disk}
     (h : d.current = none ∨ ∃ c, d.current = some c ∧ lookup d.manifests c = none) :
-    recoverR dcfg d = if anyFile d then .error .corrupted else .ok freshRState := by
-  unfold recoverR anyFile freshRState
+    recoverR dcfg d = if refusesNoEntry dcfg d then .error .corrupted else .ok freshRState := by
+  unfold recoverR refusesNoEntry anyFile freshRState
   rcases h with h | ⟨c, h1, h2⟩
-  · simp only [h]
-  · simp only [h1, h2]
+  · simp only [h, true_and]
+  · simp only [h1, h2, reduceCtorEq, false_and, if_false]
 
 theorem rebuild_empty (cfg : RCfg) {r0 : RDisk} (ht : r0.disk.tables = []) (hj : r0.disk.journals = []) :
     (rebuild (scanIn cfg r0)).entries = [] ∧ (rebuild (scanIn cfg r0)).seq = 0 := by
@@ -61,14 +74,11 @@ theorem open_of_mgood (dcfg : Cfg) {cfg : RCfg} {r0 r : RDisk} (hT : TSame cfg r
       ¬ (r0.disk.tables ≠ [] ∨ r0.disk.journals ≠ []) := by
     intro h
     rw [recoverR_no_manifest dcfg h] at hopen
-    by_cases ha : anyFile r.disk = true
+    by_cases ha : refusesNoEntry dcfg r.disk = true
     · rw [if_pos ha] at hopen; cases hopen
     · rw [if_neg ha] at hopen
       have hrs : rs = freshRState := by cases hopen; rfl
-      have ha' : r.disk.tables = [] ∧ r.disk.journals = [] := by
-        unfold anyFile at ha
-        simp only [Bool.not_eq_true', Bool.not_eq_false, Bool.and_eq_true, List.isEmpty_iff] at ha
-        exact ⟨ha.2, ha.1.2⟩
+      have ha' : r.disk.tables = [] ∧ r.disk.journals = [] := refusesNoEntry_false ha
       have ht0 : r0.disk.tables = [] := by
         have := hT.nums
         rw [ha'.1] at this
